@@ -673,10 +673,14 @@ def gen_C07(tier, rng):
     for s in shapes:
         n = prod(s)
         ins = [("leaf", False, s, [float((3 * i) % 7 - 2) for i in range(n)])]
-        for k in range(0, len(s) + 3):       # corgi accepts k beyond the rank: the [1] total
+        for k in range(0, len(s) + 1):
             ins.append(("op", ("sum", k), [0]))
         ins.append(("sumall", 0))
         cases.append(case("sum", ins, "sum:rank%d" % len(s)))
+        # corgi also accepts k beyond the rank (the [1] total); not demanded by the property, so a refusal is fine
+        cases.append(case("sum_beyond", [ins[0], ("op", ("sum", len(s) + 1), [0]), ("op", ("sum", len(s) + 2), [0])],
+                          "sum_beyond_rank"))
+        cases[-1]["refusal_ok"] = True
     seen = set()
     for s in shapes:
         n = prod(s)
@@ -1452,6 +1456,9 @@ def gen_C13(tier, rng):
                         expect.append((len(ins) - 1, dims[j], list(cur[j]), flags[j]))
                 c = case("gd", ins, "params%d:%s" % (n, "same_shape" if same else "mixed"))
                 c["gd_expect"] = expect
+                if any(not d for d in dims):
+                    c["refusal_ok"] = True      # rank-0 parameters: accepted today, not demanded by the property
+                    c["cls"] += ":rank0"
                 cases.append(c)
     # tied parameters: a second handle (clone) of a parameter in the same list.  Clones share the gradient, the
     # first of the two takes it and is stepped; the second then holds none and is left untouched; every other
@@ -1496,6 +1503,8 @@ def gen_C13(tier, rng):
                        [x - lr * g for x, g in zip(cur[tied], grads[tied])] if stepped else list(cur[tied])))
         c = case("gd_tied", ins, "tied_parameters:%d" % n)
         c["gd_expect"] = expect
+        if any(not d for d in dims):
+            c["refusal_ok"] = True
         cases.append(c)
     # the gradient a parameter holds is an EXISTING, possibly tracked array (a pass seeded with a clone of another
     # parameter): the step uses its values only - the new parameter is a fresh leaf, and later passes through it
@@ -1541,6 +1550,8 @@ def post_gd_spec(cases, rust, model):
         for ent in c["gd_expect"]:
             at, dims, vals = ent[:3]
             flag = ent[3] if len(ent) > 3 else 1
+            if c.get("refusal_ok") and "panic" in r:
+                break
             if at >= len(r) or r[at] == "panic":
                 fails.append({"case": i, "confirmed": True, "reason": "update or observation panicked"})
                 break
@@ -2105,6 +2116,8 @@ def gen_C09(tier, rng):
                 if tr:
                     ins += [("backward", 4, None), ("grad", 0), ("obs", 1)]
                 cases.append(case("sum_k", ins, "sum_beyond_rank" if k > len(s) else "sum_k"))
+                if k > len(s):
+                    cases[-1]["refusal_ok"] = True
     # only the additive term of matmul tracked
     for shape_c in ([2], [2, 2], [1, 2], [1]):
         for mask in itertools.product((False, True), repeat=3):
